@@ -324,7 +324,7 @@ def to_coq(case, obs):
   terms = []
   for cid in sorted(info):
     x = info[cid]
-    if x['c'].get('issue_error') or not any(e[1] in ('tsink', 'caller-set') for e in x['ev']):
+    if x['c'].get('issue_error') or x['c']['timeout'] <= 0 or not any(e[1] in ('tsink', 'caller-set') for e in x['ev']):
       continue
     if any(e[1] == 'tsink' and e[3] is None for e in x['ev']):
       continue   # no deadline on this call
